@@ -19,6 +19,9 @@ def harnesses(tier):
             scenario_harness("flat-windowed", Profile(
                 templates=("F3",), window="always", raises="free", crit_job=False, perm="two", top="pure"),
                 o, sampler=smp, required_notes=("c12_eligible_waiting",)),
+            scenario_harness("flat4-fanout-window-forever", Profile(
+                templates=("F4",), window="always", edges="fanout", forever="free", perm="two", top="pure",
+                crit_job=False), o + [O.c03_progress], sampler=smp, required_notes=("c12_eligible_waiting",)),
             scenario_harness("flat-window-set-after-construction", Profile(
                 templates=("F3",), window="always", window_via="attr", construct="free", crit_job=False,
                 perm="id", top="free"), o + [O.c07_window], sampler=smp, required_notes=("c12_eligible_waiting",)),
